@@ -626,6 +626,16 @@ def run(ctx):
                       b'[1,"fill",1,0,{"2":{"lst":["i16",%d' % big_n,
                       b'[1,"grid",1,0,{"1":{"lst":["lst",%d,["tf",%d' % (big_n, big_n),
                       b'[1,"nosuch",1,0,{"9":{"lst":["str",%d' % big_n]
+        # sizes that are not what they look like in 32 bits: negative, and 64-bit numbers whose low word is a small
+        # non-negative int32 (TJSONProtocol checks the int32 and returns the int)
+        for odd_n in (-1, -5000, -4294967295, -4294967296 + 5000, 4294967297, 4294967296 + 5000, -2147483648,
+                      9223372036854775807, -9223372036854775808, -9223372036854775807):
+            jmsgs += [b'[1,"fill",1,0,{"1":{"rec":{"1":{"lst":["str",%d' % odd_n,
+                      b'[1,"fill",1,0,{"1":{"rec":{"1":{"lst":["str",%d,"a","b"]}}}}]' % odd_n,
+                      b'[1,"fill",1,0,{"1":{"rec":{"2":{"map":["str","str",%d,{"a":"b"}]}}}}]' % odd_n,
+                      b'[1,"fill",1,0,{"1":{"rec":{"3":{"set":["i64",%d,1,2]}}}}]' % odd_n,
+                      b'[1,"fill",1,0,{"2":{"lst":["i16",%d,1]}}]' % odd_n,
+                      b'[1,"nosuch",1,0,{"9":{"lst":["str",%d,"x"]}}]' % odd_n]
         whole = b'[1,"fill",1,0,{"1":{"rec":{"1":{"lst":["str",2,"a","b"]},"7":{"i32":5}}},"2":{"lst":["i16",1,3]}}]'
         jmsgs += [whole[:k] for k in range(0, len(whole) + 1, 3)]
         jmsgs += [b'[1,"walk",1,0,{"1":{"rec":' + b'{"1":{"rec":' * k for k in (10, 63, 64, 65, 500, 20000)]
@@ -637,6 +647,8 @@ def run(ctx):
             what = None
             if o.get("died"):
                 what = "the process died: " + o["died"][-300:]
+            elif o.get("panic"):
+                what = "Process panicked: " + o["panic"][:300]
             elif o.get("hang"):
                 what = "no outcome within the watchdog"
             elif o.get("alloc", 0) > bound:
